@@ -363,9 +363,9 @@ def rule_r4(repo):
 
 
 def run(repo, check):
-    check.add(rule_r1(repo))
-    check.add(rule_r2(repo))
-    check.add(rule_r3(repo))
-    check.add(rule_r4(repo))
+    check.run_rule(rule_r1, repo)
+    check.run_rule(rule_r2, repo)
+    check.run_rule(rule_r3, repo)
+    check.run_rule(rule_r4, repo)
     check.assumptions = ['each primitive appends exactly one flat entry (C01.R3 / C02.R5), so emissions count flat entries',
                          'conservation of the values of a particular message is a runtime fact and is not decided']
